@@ -100,12 +100,12 @@ type KV struct {
 	V Val    `json:"v"`
 }
 
-func Null() Val          { return Val{K: "null"} }
-func Str(s string) Val   { return Val{K: "s", S: s} }
-func Num(s string) Val   { return Val{K: "n", S: s} }
-func Bool(b bool) Val    { return Val{K: "b", B: b} }
-func List(l ...Val) Val  { return Val{K: "l", L: l} }
-func Obj(m ...KV) Val    { return Val{K: "m", M: m} }
+func Null() Val            { return Val{K: "null"} }
+func Str(s string) Val     { return Val{K: "s", S: s} }
+func Num(s string) Val     { return Val{K: "n", S: s} }
+func Bool(b bool) Val      { return Val{K: "b", B: b} }
+func List(l ...Val) Val    { return Val{K: "l", L: l} }
+func Obj(m ...KV) Val      { return Val{K: "m", M: m} }
 func (v Val) IsNull() bool { return v.K == "null" }
 
 func (v Val) Get(k string) (Val, bool) {
